@@ -57,6 +57,10 @@ def _valid(kind):
         # a real file from the repository's example data: it has the physical record padding that generated files lack
         with open(os.path.join(seams.REPO, 'example_data', 'LIS', 'data', 'DILLSON-1_WELL_LOGS_FILE-013.LIS'), 'rb') as f:
             return f.read()
+    if kind == 'V0':
+        # a valid RP66V1 file without a log pass (file header and origin only): nothing to convert, nothing to fail either
+        from props import c03
+        return c03.build([[c03.FILE_HEADER, c03.ORIGIN_FULL]], 'one')[0]
     if kind == 'V1b':
         return c11.rp66_source({'n': 3, 'params': ['STAT', 'APIN', 'LOC '], 'sul': {'maxlen': 4096, 'seq': 20}})[0]   # same PARAMETER set name as V1, other objects in another order
     if kind == 'Lb':
@@ -81,6 +85,8 @@ def _damage(data, how):
         by[(4 * n) // 5] ^= 0xFF
     elif how == 'trunc':
         by = by[:(2 * n) // 3]
+    elif how == 'asis':
+        pass                                # the file as it is: a valid file whose conversion result is only compared between runs
     elif how.startswith('hi'):
         by[int(how[2:])] = 0xD8            # one byte above 0x7f at a given position (e.g. inside a name)
     elif how.startswith('bytes'):
@@ -116,7 +122,7 @@ def file_bytes(code):
     return _CACHE[code]
 
 
-EXT = {'V1': '.dlis', 'V2': '.dlis', 'V1b': '.dlis', 'L': '.lis', 'Lb': '.lis', 'LX': '.lis', 'B': '.bit', 'Bb': '.bit', 'LAS': '.las', 'DAT': '.dat', 'EMPTY': '.dlis'}
+EXT = {'V0': '.dlis', 'V1': '.dlis', 'V2': '.dlis', 'V1b': '.dlis', 'L': '.lis', 'Lb': '.lis', 'LX': '.lis', 'B': '.bit', 'Bb': '.bit', 'LAS': '.las', 'DAT': '.dat', 'EMPTY': '.dlis'}
 NATIVE = {'rp66': ('V1', 'V2', 'V1b'), 'lis': ('L', 'Lb', 'LX'), 'bit': ('B', 'Bb')}
 
 
@@ -404,6 +410,11 @@ def gen_cases(tier):
             yield {'tool': tool, 'files': [['RUN1', '%s:%s' % (g1, dmg)], ['RUN1_A', g0], ['RUN1_B', g1]], 'channels': []}
         yield {'tool': tool, 'files': [['.W3' + EXT[g0], g0], ['a' + EXT[g1], g1]], 'channels': []}
         yield {'tool': tool, 'files': [['Well [1]/a' + EXT[g0], g0], ['Well [1]/b' + EXT[g0], '%s:trunc' % g0], ['w*/c' + EXT[g1], g1], ['d' + EXT[g1], g1]], 'channels': []}
+        if tool == 'rp66':
+            # files without a log pass, first / alone in their (sub-)directory and after a file with one
+            yield {'tool': tool, 'files': [['a.dlis', 'V0:asis'], ['sub/b.dlis', 'V0:asis'], ['sub/c.dlis', g0]], 'channels': []}
+            yield {'tool': tool, 'files': [['a.dlis', g0], ['b.dlis', 'V0:asis']], 'channels': []}
+            yield {'tool': tool, 'files': [['only/a.dlis', 'V0:asis']], 'channels': []}
         # output name collisions
         yield {'tool': tool, 'files': [['a' + EXT[g0], g0], ['a' + EXT[g0].upper(), gb]], 'channels': []}
         # a long batch handled by one process (sequential run, one worker, two workers)
